@@ -186,6 +186,8 @@ def run(ctx):
     ctx.assume("callers announce disk changes through refresh_disk (contract of the session API)")
     from . import c17
     c17.rule_registry_atomic(ctx)
+    from . import c11
+    c11.check_source_readers(ctx)
     return {}
 
 
